@@ -107,6 +107,7 @@ theorem C10_range_bounds (r : Range) (last lo hi : Nat) (h : r.bounds last = som
     · simp at h; omega
     · cases h
 
+/- VACUITY AUDIT: no longer an obligation of the check. an unfolding of Db.verifyDigests, which compares leaf LISTS where the code compares roots; its content is C10_root_binding. Replaced by: Vacuity.C10.C10_root_binding_witness. -/
 /-- **The digest list is accepted only if it reproduces the signed leaves** (list form used by the driver) -/
 theorem C10_digests_binding (N : Names ν) (l : List (ν × δ)) (last : Nat) (signedLeaves : List δ)
     (certOk : Bool) (f : List (ν × δ)) (h : verifyDigests N l last signedLeaves certOk = some f) :
